@@ -2,6 +2,7 @@ package an
 
 import (
 	"fmt"
+	"go/constant"
 	"go/token"
 	"go/types"
 	"math/big"
@@ -50,6 +51,76 @@ func (e CodecEvent) String() string {
 		s += "@" + e.Off
 	}
 	return s
+}
+
+// appendUintOf recognises binary.LittleEndian.AppendUintNN / BigEndian.AppendUintNN.
+func appendUintOf(name string) (width int, order string, ok bool) {
+	o := ""
+	switch {
+	case strings.HasPrefix(name, "(encoding/binary.littleEndian).AppendUint"):
+		o = "LE"
+	case strings.HasPrefix(name, "(encoding/binary.bigEndian).AppendUint"):
+		o = "BE"
+	default:
+		return 0, "", false
+	}
+	switch name[strings.LastIndex(name, "AppendUint")+len("AppendUint"):] {
+	case "16":
+		return 2, o, true
+	case "32":
+		return 4, o, true
+	case "64":
+		return 8, o, true
+	}
+	return 0, "", false
+}
+
+// staticLen: the statically known length of a byte slice built by make / append / AppendUintNN in straight-line code.
+func staticLen(v ssa.Value, depth int) (int, bool) {
+	if depth > 40 {
+		return 0, false
+	}
+	switch x := v.(type) {
+	case *ssa.MakeSlice:
+		if k, ok := x.Len.(*ssa.Const); ok && k.Value != nil {
+			if n, exact := constant.Int64Val(k.Value); exact {
+				return int(n), true
+			}
+		}
+	case *ssa.Slice:
+		if k, ok := x.High.(*ssa.Const); ok && k.Value != nil && x.Low == nil {
+			if n, exact := constant.Int64Val(k.Value); exact {
+				return int(n), true
+			}
+		}
+		if x.Low == nil && x.High == nil {
+			if n := fixedArrayLen(x.X.Type()); n > 0 {
+				return n, true
+			}
+		}
+	case *ssa.Convert:
+		if k, ok := x.X.(*ssa.Const); ok && k.Value != nil && k.Value.Kind() == constant.String {
+			return len(constant.StringVal(k.Value)), true
+		}
+	case *ssa.Const:
+		if x.Value != nil && x.Value.Kind() == constant.String {
+			return len(constant.StringVal(x.Value)), true
+		}
+		if x.Value == nil {
+			return 0, true // nil slice
+		}
+	case *ssa.Call:
+		if bi, ok := x.Call.Value.(*ssa.Builtin); ok && bi.Name() == "append" && len(x.Call.Args) == 2 {
+			a, ok1 := staticLen(x.Call.Args[0], depth+1)
+			b, ok2 := staticLen(x.Call.Args[1], depth+1)
+			return a + b, ok1 && ok2
+		}
+		if w, _, ok := appendUintOf(CalleeName(&x.Call)); ok && len(x.Call.Args) == 3 {
+			a, ok1 := staticLen(x.Call.Args[1], depth+1)
+			return a + w, ok1
+		}
+	}
+	return 0, false
 }
 
 func byteOrderOf(name string) (width int, order string, put bool, ok bool) {
@@ -464,6 +535,16 @@ func (p *Program) CodecEvents(fn *ssa.Function) []CodecEvent {
 						e.Instr, e.Pos, e.TmpAlloc = x, x.Pos(), nil
 						out = append(out, e)
 					}
+					continue
+				}
+				// append style: buf = binary.LittleEndian.AppendUint32(buf, v) writes v at offset len(buf)
+				if w, order, ok := appendUintOf(name); ok && len(x.Call.Args) == 3 {
+					vt := fi.Term(x.Call.Args[2])
+					ev := CodecEvent{Op: "W", Width: w, Order: order, Float: containsFloatBits(vt, "math.Float64bits"), Field: innerField(vt), Pos: x.Pos(), Instr: x, Val: vt}
+					if n, ok := staticLen(x.Call.Args[1], 0); ok {
+						ev.Off = "#" + itoa(n)
+					}
+					out = append(out, ev)
 					continue
 				}
 				if w, order, put, ok := byteOrderOf(name); ok {
